@@ -104,8 +104,16 @@ def gen_case(rng, tier):
             coll.append([[base + rng.random() * span, 0.0] for _ in range(n)])
             for q in coll[-1]:
                 q[1] = q[0] + 0.05 * span + rng.random() * span
-        # positive extent in birth and persistence across the collection
-        coll[0].append([base + 1.5 * span, base + 1.5 * span + 2.2 * span])
+        r_ = rng.random()
+        if r_ < 0.12:
+            # H0-like data: every birth coincides (a degenerate birth axis); the statement makes no exception for
+            # it, and whatever a fit does with it must not depend on earlier fits
+            coll = [[[base, q[1] - q[0] + base] for q in d] for d in coll]
+        elif r_ < 0.2:
+            coll = [[[q[0], q[0] + 0.5 * span] for q in d] for d in coll]      # every persistence coincides
+        else:
+            # positive extent in birth and persistence across the collection
+            coll[0].append([base + 1.5 * span, base + 1.5 * span + 2.2 * span])
         idata.append(coll)
     ops = []
     for _ in range(rng.randint(2, 14 if tier == "quick" else 32)):
@@ -216,8 +224,8 @@ def check_data(inp):
                 raise InvalidCase("empty diagram in fit data")
         allp = np.vstack([ic.arr(d) for d in coll])
         bp = np.column_stack([allp[:, 0], allp[:, 1] - allp[:, 0]])
-        if not (np.ptp(bp[:, 0]) > 0 and np.ptp(bp[:, 1]) > 0):
-            raise InvalidCase("fit data must span a positive extent")
+        if max(np.ptp(bp[:, 0]), np.ptp(bp[:, 1])) > 400:
+            raise InvalidCase("extent too large for the pixel sizes in use")
     for X in inp["ldata"]:
         if len(X) != 2:
             raise InvalidCase("need H0,H1")
